@@ -1439,9 +1439,12 @@ class VM:
 
         def splice_fn(*args):
             start = to_integer(args[0]) if args else 0
-            delete_count = (
-                to_integer(args[1]) if len(args) > 1 else len(arr._elements) - start
-            )
+            if len(args) > 1:
+                delete_count = to_integer(args[1])
+            elif args:
+                delete_count = len(arr._elements) - start  # everything from start
+            else:
+                delete_count = 0  # the number of arguments decides: splice() removes nothing
             items = list(args[2:]) if len(args) > 2 else []
 
             length = len(arr._elements)
